@@ -282,8 +282,9 @@ theorem member_inside (c : Cls) (hdrPhoff : BitVec 64) (phentsize phnum : BitVec
 
 /-! ### writer domain, flat objects: the segments of the saved object
 
-`layoutDomB cov ins` (Lemmas/Layout.lean) demands at every turn of the loop over the ordered
-segments: `segDom cov ins`; no member of the segment has been generated before its step (`segFlat`:
+`layoutDomB cov ins sel` (Lemmas/Layout.lean) demands at the turn of every segment whose index is
+selected by `sel` (all of them for a flat object; the enclosing, non-nested ones otherwise):
+`segDom cov ins`; no member of the segment has been generated before its step (`segFlat`:
 the member lists of the segments are disjoint and duplicate-free — no nested segments); a segment
 with members is neither the PHDR nor the offset-0 special case.  Segment indices are distinct
 (`save` puts the laid out segments back by index). -/
@@ -298,8 +299,8 @@ theorem save_secs_hdr (o : Obj) (os : OStream) (r : SaveRes) (hdr : Bytes)
   rw [hh] at hh'; simp only [Option.some.injEq] at hh'; subst hh'
   exact ⟨res, hl, hsegs, hcur, by rw [hsecs, residentForSave_hdr]; simp⟩
 
-/-- **The segments of the saved object** (flat writer-domain objects).  For every segment `g` of the
-    object left by a successful `save`:
+/-- **The segments of the saved object** (writer domain).  For every selected segment `g` of the
+    object left by a successful `save` (`sel g.index`; in a flat object: every segment):
     * `p_memsz ≥ p_filesz`;
     * if it has members (and `p_align ≤ 2^63`): `p_offset ≡ p_vaddr (mod max(p_align,1))`;
     * every member `s` that occupies file space is at the same distance from the segment start in
@@ -310,7 +311,8 @@ theorem save_segments (cov ins : Bool) (o : Obj) (os : OStream) (r : SaveRes) (h
     (hn : o.secs.length < 65536)
     (h0 : ∀ (i : Nat) (s : SecBuf), o.secs[i]? = some s → s.Occ → s.index ≠ 0)
     (hnw : layoutNW (preSave o) hdr = true) (hnd : (o.segs.map (·.index)).Nodup)
-    (hdom : layoutDomB cov ins (preSave o) hdr = true) (g : Seg) (hg : g ∈ r.obj.segs) :
+    (sel : Nat → Bool) (hdom : layoutDomB cov ins sel (preSave o) hdr = true)
+    (g : Seg) (hg : g ∈ r.obj.segs) (hsel : sel g.index = true) :
     g.filesz.toNat ≤ g.memsz.toNat ∧
     (g.secs ≠ [] → g.align.toNat ≤ 9223372036854775808 →
       g.offset.toNat % (max g.align.toNat 1) = g.vaddr.toNat % (max g.align.toNat 1)) ∧
@@ -323,7 +325,7 @@ theorem save_segments (cov ins : Bool) (o : Obj) (os : OStream) (r : SaveRes) (h
   rw [hsegs] at hg
   have hn' : (preSave o).secs.length < 65536 := by rw [preSave_length]; exact hn
   have h0' := preSave_h0 o h0
-  obtain ⟨f1, f2, f3, -⟩ := final_segments cov ins (preSave o) hdr res hl hnw hn' h0' hnd hdom g hg
+  obtain ⟨f1, f2, f3, -⟩ := final_segments cov ins (preSave o) hdr res hl hnw hn' h0' hnd sel hdom g hg hsel
   refine ⟨f1, f2, ?_⟩
   intro idx hidx s hk
   obtain ⟨s', hs', hhs⟩ := hdrOf_getElem? he idx.toNat s hk
@@ -334,6 +336,37 @@ theorem save_segments (cov ins : Bool) (o : Obj) (os : OStream) (r : SaveRes) (h
   unfold SecBuf.endN at *
   rw [← e1, ← e2, ← e3, ← e5]
   exact ⟨fun ho => g1 (hocc.1 ho), fun hi ho => g2 hi (hocc.1 ho), g3⟩
+
+/-- writer-domain side conditions `segDom false false` at every turn (no flatness demanded) -/
+def layoutDomAllB (o : Obj) (h : Bytes) : Bool :=
+  match layoutOf o h with
+  | .ok (some res) =>
+    segsAllB (fun lay g => segDom false false o.cls (Hdr.e_phoff o.cls o.enc res.hdr0)
+        (Hdr.e_phentsize o.cls o.enc res.hdr0) (Hdr.e_phnum o.cls o.enc res.hdr0) lay g)
+      o.cls (Hdr.e_phoff o.cls o.enc res.hdr0) (Hdr.e_phentsize o.cls o.enc res.hdr0)
+      (Hdr.e_phnum o.cls o.enc res.hdr0) res.ordered (lay0Of o res.pos0)
+  | _ => true
+
+/-- **`p_memsz ≥ p_filesz` for every segment of the saved object**, nested segments included
+    (no flatness hypothesis: the running file size never exceeds the running memory size). -/
+theorem save_memsz_ge_filesz (o : Obj) (os : OStream) (r : SaveRes) (hdr : Bytes)
+    (hs : save o os = .ok r) (hok : r.ok = true) (hh : o.hdr = some hdr)
+    (hn : o.secs.length < 65536)
+    (h0 : ∀ (i : Nat) (s : SecBuf), o.secs[i]? = some s → s.Occ → s.index ≠ 0)
+    (hnw : layoutNW (preSave o) hdr = true) (hnd : (o.segs.map (·.index)).Nodup)
+    (hdom : layoutDomAllB (preSave o) hdr = true) (g : Seg) (hg : g ∈ r.obj.segs) :
+    g.filesz.toNat ≤ g.memsz.toNat := by
+  obtain ⟨res, hl, hsegs, -, -⟩ := save_secs_hdr o os r hdr hs hok hh
+  rw [hsegs] at hg
+  have hn' : (preSave o).secs.length < 65536 := by rw [preSave_length]; exact hn
+  have h0' := preSave_h0 o h0
+  obtain ⟨t, ht, rfl⟩ := final_segs_turn (preSave o) hdr res hl hnw hn' h0' hnd g hg
+  obtain ⟨-, -, e3⟩ := layoutOf_trace (preSave o) hdr res hl hnw hn' h0'
+  obtain ⟨f1, f2, f3, -, -, -⟩ := e3 t ht
+  unfold layoutDomAllB at hdom
+  rw [hl] at hdom
+  have hsd := segsAllB_trace _ _ _ _ _ _ _ hdom t ht
+  exact (layoutSegment_dom false false _ _ _ _ t.lay t.lay' t.g t.g' _ f3 f2 hsd f1).1
 
 /-- **What `validate` needs** (C20): the object left by a successful `save` of a flat writer-domain
     object whose SHT_NULL-typed sections are empty satisfies `LayoutOk` — file ranges of all
@@ -346,7 +379,7 @@ theorem save_layoutOk (o : Obj) (os : OStream) (r : SaveRes) (hdr : Bytes)
     (h0 : ∀ (i : Nat) (s : SecBuf), o.secs[i]? = some s → s.Occ → s.index ≠ 0)
     (hnull0 : ∀ s ∈ o.secs, s.stype = BitVec.ofNat 32 SHT_NULL → s.size = 0)
     (hnw : layoutNW (preSave o) hdr = true) (hnd : (o.segs.map (·.index)).Nodup)
-    (hdom : layoutDomB false false (preSave o) hdr = true) : LayoutOk r.obj := by
+    (hdom : layoutDomB false false (fun _ => true) (preSave o) hdr = true) : LayoutOk r.obj := by
   obtain ⟨hin, hdisj, hlt, -⟩ := layout_disjoint o os r hdr hs hok hh hn h0 hnw
   have hn' : (preSave o).secs.length < 65536 := by rw [preSave_length]; exact hn
   have h0' := preSave_h0 o h0
@@ -381,7 +414,7 @@ theorem save_layoutOk (o : Obj) (os : OStream) (r : SaveRes) (hdr : Bytes)
   · intro g hg hload hfs s hm hpb h1 h2
     obtain ⟨res, hl, hsegs, -, he⟩ := save_secs_hdr o os r hdr hs hok hh
     rw [hsegs] at hg
-    obtain ⟨-, -, -, f4⟩ := final_segments false false (preSave o) hdr res hl hnw hn' h0' hnd hdom g hg
+    obtain ⟨-, -, -, f4⟩ := final_segments false false (preSave o) hdr res hl hnw hn' h0' hnd _ hdom g hg rfl
     obtain ⟨k, hk⟩ := List.getElem?_of_mem hm
     obtain ⟨s', hs', hhs⟩ := hdrOf_getElem? he k s hk
     have hso : s.Occ := hocc s hm (by rw [hpb]; decide) (by omega)
@@ -393,6 +426,107 @@ theorem save_layoutOk (o : Obj) (os : OStream) (r : SaveRes) (hdr : Bytes)
     have := f4 hfs hph k s' hs' (hocc'.1 hso) (by rw [e1]; exact h1) (by unfold SecBuf.endN; rw [e1, e2]; exact h2)
     rw [e1, e5] at this
     bv_omega
+
+/-! ### the ranges lie inside the file -/
+
+/-- **Everything `save` laid out lies inside the saved stream.**  For a successful `save` of an
+    object with at least one section whose header buffer has the full length `sizeof(Ehdr)` (as
+    `create` and `load` allocate it) and whose section header table offset is below 2^63 (`streamoff` is signed) and fits the class's
+    `e_shoff`: the stream content reaches the section header table offset — hence the end of the
+    ELF header, of the program header table and of every non-empty file-occupying section
+    (`layout_disjoint`) — and the end of every section header record.  (`adjust_stream_size`
+    zero-fills up to the position it seeks to.) -/
+theorem file_covers (o : Obj) (os : OStream) (r : SaveRes) (hdr : Bytes)
+    (hs : save o os = .ok r) (hok : r.ok = true) (hh : o.hdr = some hdr)
+    (hn : o.secs.length < 65536) (hne : o.secs ≠ [])
+    (h0 : ∀ (i : Nat) (s : SecBuf), o.secs[i]? = some s → s.Occ → s.index ≠ 0)
+    (hnw : layoutNW (preSave o) hdr = true)
+    (hlen : ehdrSize o.cls ≤ hdr.length) (hfit : fitsB o.cls r.obj.curPos = true)
+    (hsh : r.obj.curPos.toNat < 9223372036854775808) :
+    r.obj.curPos.toNat ≤ r.os.content.length ∧
+    (∀ (k : Nat) (s : SecBuf), r.obj.secs[k]? = some s → s.Occ → s.endN ≤ r.os.content.length) ∧
+    (∃ hdrF, r.obj.hdr = some hdrF ∧ Hdr.e_shoff o.cls o.enc hdrF = r.obj.curPos ∧
+      ∀ b ∈ r.obj.secs,
+        r.obj.curPos.toNat + (Hdr.e_shentsize o.cls o.enc hdrF).toNat * b.index + (encodeShdr o.cls o.enc b).length ≤
+          r.os.content.length) := by
+  obtain ⟨hdr', hdrF, hh', hF, hFeq, hnf, hos, hfin⟩ := save_stream o os r hs hok
+  rw [hh] at hh'; simp only [Option.some.injEq] at hh'; subst hh'
+  -- the header reads back the table offset
+  have hsho : Hdr.e_shoff o.cls o.enc hdrF = r.obj.curPos := by
+    rw [hFeq]
+    exact e_shoff_set_shoff _ _ _ _ (by rw [saveHdr0_length (preSave o) _ hlen]; exact hlen) hfit
+  -- the stream after the header write is well formed
+  have hw1 : ((os.seekp (trApply o.trans 0)).write hdrF).WF := by
+    have h1 := OStream.write_fail _ _ hnf
+    obtain ⟨-, w, -, -, -⟩ := OStream.seekp_facts _ _ h1
+    exact (OStream.write_facts _ _ w hnf).1
+  rw [hsho] at hos
+  rw [hos] at hfin
+  have hmid := saveSegments_sticky _ _ _ _ _ _ hfin
+  obtain ⟨-, w2, -, hsec⟩ := saveSections_facts _ _ _ _ _ _ hw1 hmid
+  obtain ⟨-, hgrow⟩ := saveSegments_facts _ _ _ _ _ _ w2 hfin
+  rw [← hos] at hgrow
+  have hti : r.obj.curPos.toInt = (r.obj.curPos.toNat : Int) := by
+    rw [BitVec.toInt_eq_toNat_cond]
+    simp only [Nat.reducePow]
+    split
+    · rfl
+    · omega
+  -- at least one section header record is written at or after the table offset
+  have hcov : ∀ b ∈ r.obj.secs,
+      r.obj.curPos.toNat + (Hdr.e_shentsize o.cls o.enc hdrF).toNat * b.index + (encodeShdr o.cls o.enc b).length ≤
+        r.os.content.length := by
+    intro b hb
+    obtain ⟨g1, g2, -⟩ := hsec b hb
+    rw [hti] at g1 g2
+    have : ((r.obj.curPos.toNat : Int) + Int.ofNat (Hdr.e_shentsize o.cls o.enc hdrF).toNat * Int.ofNat b.index).toNat =
+        r.obj.curPos.toNat + (Hdr.e_shentsize o.cls o.enc hdrF).toNat * b.index := by
+      have : (Int.ofNat (Hdr.e_shentsize o.cls o.enc hdrF).toNat * Int.ofNat b.index) =
+          (((Hdr.e_shentsize o.cls o.enc hdrF).toNat * b.index : Nat) : Int) := by
+        simp [Int.natCast_mul]
+      rw [this]; omega
+    rw [this] at g2
+    omega
+  obtain ⟨hin, -, -, -⟩ := layout_disjoint o os r hdr hs hok hh hn h0 hnw
+  -- some section exists
+  have hex : ∃ b, b ∈ r.obj.secs := by
+    obtain ⟨res, hl, -, -, he⟩ := save_secs_hdr o os r hdr hs hok hh
+    have hn' : (preSave o).secs.length < 65536 := by rw [preSave_length]; exact hn
+    have hl1 := layout_length (preSave o) hdr res hl hnw hn' (preSave_h0 o h0)
+    have hl2 : r.obj.secs.length = res.secs.length := by
+      have := congrArg List.length he; simpa using this
+    have : 0 < r.obj.secs.length := by
+      rw [hl2, hl1, preSave_length]
+      exact List.length_pos_iff.2 hne
+    exact ⟨r.obj.secs[0], List.getElem_mem this⟩
+  obtain ⟨b, hb⟩ := hex
+  have hbase : r.obj.curPos.toNat ≤ r.os.content.length := by
+    have := hcov b hb; omega
+  refine ⟨hbase, ?_, hdrF, hF, hsho, hcov⟩
+  intro k s hk ho
+  have := (hin k s hk ho).2
+  omega
+
+/-! ### what is not proved -/
+
+/-- NOT PROVED (kept visible): the member clauses of `save_segments` for a *nested* segment — one
+    whose members were generated by an earlier, enclosing segment (e.g. a PT_NOTE/PT_TLS inside a
+    PT_LOAD).  There `seg_start_pos` is the first member's offset and the sizes are accumulated
+    through `wsd_gap_generated`; the proof needs the writer-domain facts "the nested segment's
+    vaddr is its first member's address, its members are consecutive members of the enclosing
+    segment" and the enclosing segment's equidistance (`member_equidistant`) for *all* its members
+    (also address-less NOBITS ones).  For nested segments only `save_memsz_ge_filesz` is proved; the
+    correspondence check and the oracle cover them. -/
+def NestedSegmentStatement : Prop :=
+  ∀ (o : Obj) (os : OStream) (r : SaveRes) (hdr : Bytes),
+    save o os = .ok r → r.ok = true → o.hdr = some hdr → o.secs.length < 65536 →
+    (∀ (i : Nat) (s : SecBuf), o.secs[i]? = some s → s.Occ → s.index ≠ 0) →
+    layoutNW (preSave o) hdr = true → (o.segs.map (·.index)).Nodup →
+    layoutDomAllB (preSave o) hdr = true →
+    -- writer domain for nested segments: starts at its first member's address
+    (∀ g ∈ o.segs, ∀ f ∈ g.secs.head?, ∀ s ∈ o.secs[f.toNat]?, s.addrSet = true → g.vaddr = s.addr) →
+    ∀ g ∈ r.obj.segs, ∀ idx ∈ g.secs, ∀ (s : SecBuf), r.obj.secs[idx.toNat]? = some s → s.Occ →
+      s.offset - g.offset = s.addr - g.vaddr
 
 /-! ### concrete objects: non-vacuity, and the F14 witness -/
 
@@ -438,6 +572,14 @@ example :
     segDom true true .c64 64 56 1 exLay0 { stype := 1, vaddr := 0x401000, align := 0x1000, secs := [2, 3], index := 0 } = true ∧
     segFresh exLay0 { stype := 1, vaddr := 0x401000, align := 0x1000, secs := [2, 3], index := 0 } := by
   refine ⟨by decide, by decide, by decide, by decide, by decide, 2, rfl, by decide⟩
+
+/-- `save exObj` succeeds, and the saved object meets the remaining hypotheses of `file_covers`
+    (table offset below 2^63; full-length header) — and, as the theorem says, the stream reaches it -/
+example : (match save exObj {} with
+    | .ok r => r.ok && decide (r.obj.curPos.toNat < 9223372036854775808) && fitsB exObj.cls r.obj.curPos &&
+        decide (ehdrSize exObj.cls ≤ exHdr.length) && decide (r.obj.curPos.toNat ≤ r.os.content.length)
+    | _ => false) = true := by
+  set_option maxRecDepth 100000 in decide
 
 /-- F14: a PT_LOAD whose only member is a NOBITS section with the *explicit* address `vaddr + 0x24` -/
 def f14Obj : Obj :=
